@@ -23,6 +23,7 @@ RULE += (" Requests are judged with the settings as the user STATED them (not th
 RULE += (' NaN objective values with ordinary targets (-50, 0.5, 50, 1e6).')
 RULE += (" Family ulptarget: the target is a record that improves on the previous one by at most 64 ulps.")
 RULE += (" Family userstop: a user function raising StopIteration is no stopping request; target placements on problems whose constraint is undefined at early evaluations.")
+RULE += (" Family x0_near_bound: x0 within the initial radius of a bound and best so far; the request is placed on the evaluation that follows the initial sampling.")
 ASSUMPTIONS = [
     "the solver is deterministic (C11), so the rerun reproduces evaluations "
     "1..k bitwise; this is itself verified (prefix comparison) and a mismatch "
@@ -37,7 +38,7 @@ MIN_NONTRIVIAL = {"quick": 15, "thorough": 60}
 PLAN = [("target", 450, 7000), ("callback", 350, 5000), ("feas", 250, 4000),
         ("multi", 150, 2500), ("soc", 400, 5000), ("bartarget", 150, 2000),
         ("tinyviol", 60, 600), ("ulptarget", 60, 800),
-        ("userstop", 60, 600)]
+        ("userstop", 60, 600), ("x0_near_bound", 80, 800)]
 
 EPS = np.finfo(float).eps
 
@@ -165,6 +166,32 @@ def run_case(case, judge="c09"):
                     10.0 ** rng.uniform(-11, -8))}}
         force_kind = "ulp"
         fam = "target"
+    elif fam == "x0_near_bound":
+        # x0 strictly inside the box but within the initial radius of some
+        # bounds (the initial set is built around a moved base point) and the
+        # objective is smallest at x0: whatever evaluation comes right after
+        # the initial sampling, a request placed on it takes effect there
+        n = int(rng.integers(1, 4))
+        x0 = rng.uniform(-1, 1, n)
+        rad = float(rng.choice([0.5, 1.0, 2.0]))
+        lb = x0 - rad * rng.uniform(1.5, 4.0, n)
+        ub = x0 + rad * rng.uniform(1.5, 4.0, n)
+        for i in rng.choice(n, size=int(rng.integers(1, n + 1)),
+                            replace=False):
+            if rng.random() < 0.5:
+                lb[i] = x0[i] - rad * float(rng.uniform(0.05, 0.9))
+            else:
+                ub[i] = x0[i] + rad * float(rng.uniform(0.05, 0.9))
+        qm = rng.uniform(-1, 1, (n, n))
+        qm = qm @ qm.T + 0.3 * np.eye(n)
+        spec = {"n": n, "obj": {"kind": "quad", "Q": qm.tolist(),
+                                "c": x0.tolist(), "f0": float(rng.normal())},
+                "x0": x0.tolist(), "con_kind": "none",
+                "bounds": {"lb": lb.tolist(), "ub": ub.tolist(),
+                           "form": "Bounds", "patterns": ["near"] * n},
+                "options": {"maxfev": 40, "radius_init": rad}}
+        force_kind = "at_npt"
+        fam = "target"
     elif fam == "userstop":
         # a USER FUNCTION (not the callback) raises StopIteration at some
         # evaluation - an exhausted iterator in the user's code: no stopping
@@ -258,6 +285,11 @@ def run_case(case, judge="c09"):
                 best = min(best, r["f"])
         if want_kind == "first":
             pick = [r for r in cands if r["i"] == 0]
+        elif want_kind == "at_npt":
+            npt_ = 2 * spec["n"] + 1
+            pick = [r for r in cands if r["i"] == npt_]
+            if pick:
+                counts["placed_right_after_sampling"] = 1
         elif want_kind == "ulp":
             pick = [r for r in cands if r["i"] in ulp_gain]
             if not pick:
